@@ -44,6 +44,21 @@ struct Extractor : public RecursiveASTVisitor<Extractor> {
   PrintingPolicy PP;
   json::Array functions, classes, enums, globals;
   std::set<std::string> seenFn, seenClass, seenEnum, seenGlobal;
+  // Per-function unique names for locals: a second declaration of the same identifier in one
+  // function (another scope, another range-for) is reported as "name#2", "name#3", ...
+  std::map<const VarDecl*, std::string> localNames;
+  std::map<std::string, int> localCount;
+
+  std::string localName(const VarDecl* VD) {
+    if (isa<ParmVarDecl>(VD) || VD->hasGlobalStorage()) return VD->getNameAsString();
+    auto it = localNames.find(VD);
+    if (it != localNames.end()) return it->second;
+    std::string n = VD->getNameAsString();
+    int c = ++localCount[n];
+    std::string u = c == 1 ? n : n + "#" + std::to_string(c);
+    localNames[VD] = u;
+    return u;
+  }
 
   explicit Extractor(ASTContext& C)
       : Ctx(C), SM(C.getSourceManager()), PP(C.getLangOpts()) {
@@ -237,7 +252,7 @@ struct Extractor : public RecursiveASTVisitor<Extractor> {
         if (isa<ParmVarDecl>(VD)) vk = "param";
         else if (VD->isStaticLocal()) vk = "static";
         else if (VD->hasGlobalStorage()) vk = "global";
-        json::Object o{{"k", "var"}, {"n", vk[0] == 'g' ? qualName(VD) : VD->getNameAsString()},
+        json::Object o{{"k", "var"}, {"n", vk[0] == 'g' ? qualName(VD) : localName(VD)},
                        {"vk", vk}, {"ty", typeStr(VD->getType())},
                        {"tk", typeKind(VD->getType())}};
         if (VD->getType()->isReferenceType()) o["ref"] = true;
@@ -498,7 +513,7 @@ struct Extractor : public RecursiveASTVisitor<Extractor> {
       for (const Decl* D : DS->decls()) {
         if (auto* VD = dyn_cast<VarDecl>(D)) {
           json::Object o = base("decl");
-          o["n"] = VD->getNameAsString();
+          o["n"] = localName(VD);
           o["ty"] = typeStr(VD->getType());
           o["tk"] = typeKind(VD->getType());
           if (VD->getType()->isReferenceType()) o["ref"] = true;
@@ -579,6 +594,17 @@ struct Extractor : public RecursiveASTVisitor<Extractor> {
     if (!inRoot(FD->getLocation())) return;
     std::string id = funcId(FD);
     if (!seenFn.insert(id).second) return;
+    localNames.clear();
+    localCount.clear();
+    // number the locals in source order first, so that names do not depend on CFG order
+    struct Pre : RecursiveASTVisitor<Pre> {
+      Extractor& X;
+      explicit Pre(Extractor& x) : X(x) {}
+      bool shouldVisitImplicitCode() const { return true; }
+      bool VisitVarDecl(VarDecl* VD) { X.localName(VD); return true; }
+      bool TraverseLambdaExpr(LambdaExpr*) { return true; }
+    } pre(*this);
+    pre.TraverseStmt(const_cast<Stmt*>(Body));
 
     json::Object fo;
     fo["id"] = id;
